@@ -71,7 +71,18 @@ def analyse(facts, with_socket=False, extra_setup=None):
         return st.mem[isamod.CPU_ROOT].fields[I.fi[name]]
 
     def p_try_interrupt(ip_, st, fr, t, args):
-        return fail_fork(st, Enum(models.OK, [UNIT]), ("try_interrupt",))
+        # Result<()> today; if the entry sequence reports a charge (Result<integer>) the value is arbitrary here
+        okv = UNIT
+        rt = ip_.types[t["dest"]["ty"]]
+        try:
+            okt = rt["variants"][models.OK]["fields"][0]
+            okt = okt["ty"] if isinstance(okt, dict) else okt
+            ii = ip_.int_info(okt)
+            if ii:
+                okv = Int(bv.seq_bv("irq_charge", ii[0]))
+        except (KeyError, IndexError, TypeError):
+            pass
+        return fail_fork(st, Enum(models.OK, [okv]), ("try_interrupt",))
 
     def p_fetch(ip_, st, fr, t, args):
         st.add_eff(("fetch",))
